@@ -152,7 +152,7 @@ def _tree(rng, nmax):
     for _ in range(n):
         parents = [p for p in kids if cls[p] in ("Model", "Pkg") and depth[p] < 3]
         p = rng.choice(parents)
-        c = rng.choice(["Pkg", "DefA", "DefA", "DefB", "Use"]) if depth[p] < 2 else rng.choice(["Pkg", "DefA", "DefA", "DefB", "Use"])
+        c = rng.choice(["Pkg", "DefA", "DefA", "DefB", "Use"])
         if depth[p] + 1 >= 3 and c == "Pkg" and rng.random() < 0.5:
             c = "DefA"
         kids[p].append(nxt)
@@ -331,6 +331,7 @@ def judge_all(rep, pid, cases, nontrivial):
     verdict = {}
     fallback = {}
     why = {}
+    best = {}
     stats = []
     for level in [[frozenset()]] + list(dev_levels(findings)):
         if not pending:
@@ -351,17 +352,19 @@ def judge_all(rep, pid, cases, nontrivial):
             for D in level:
                 got, r = res[("t", D)]
                 ok = got[j][0] == got[j][1]
-                if not ok and not D:
-                    k = got[j][0]
-                    why[i] = (f"event {k + 1} of the recorded load is not a step of LoaderUser!Next: "
-                              f"{json.dumps(x['trace']['events'][k])[:260]}")
+                if not ok and got[j][0] >= best.get(i, -1):
+                    k = best[i] = got[j][0]      # report the deviation set that explains the longest prefix
+                    why[i] = (f"event {k + 1} of the recorded load is not a step of LoaderUser!Next with "
+                              f"Dev={sorted(D)}: {json.dumps(x['trace']['events'][k])[:260]}")
                 if ok and x["sc"].get("summary"):
                     sums, _ = res[("s", D)]
                     exps = [common.canon(project(expected_obs(e), pid)) for e in sums[x["sc"]["id"]]]
                     o = project(x["obs"], pid)
                     ok = common.canon(o) in exps
-                    if not ok and not D:
-                        why[i] = f"observed {common.canon(o)[:240]} but LoaderUser.tla gives {exps[0][:240]}"
+                    if not ok:
+                        best[i] = 10 ** 6
+                        why[i] = (f"the event log is a behaviour with Dev={sorted(D)} but the summary differs: observed "
+                                  f"{common.canon(o)[:240]} but LoaderUser.tla gives {exps[0][:240]}")
                 if ok:
                     found = D
                     break
